@@ -101,4 +101,30 @@ PROPERTIES = {
         note='as C06 for the file model; the lazy-quantifier regex of get_http_header is checked by enumeration on the real code, not proved. One genuine defect '
              '(missing re.DOTALL) was found by the obligation get_http_header/ensures:found-when-present and repaired (fix: commit).',
     ),
+    'C04': dict(
+        modules=['httpstream', 'httpclient', 'warc'], level='proof', bounded=['c08_segment.py'],
+        claim='Ghost byte streams per connection: `consumed` (everything read()/readline() returned) and `notified` (everything reported to read listeners). '
+              'read_response, the read-until-close, chunked (header, fragments, terminators, trailer) and length-delimited readers all satisfy, by inductive loop '
+              'invariants over symbolic read lengths (= every segmentation), notified-delta == consumed-delta on normal exit -- except that a length-delimited '
+              'body reports exactly Content-Length bytes and closes the connection on overrun; write_request reports exactly the bytes it writes; '
+              'Session.start performs one write_request and one read_response on a fresh stream, with the read listener registered before the first response '
+              'byte is read and the write listener spanning exactly the request; the recorder session appends event data verbatim to the block files. '
+              'BOUNDED (labelled): the real Stream under all <=2-cut segmentations versus a reference decoder.',
+        note='assumed: Connection.read/readline/write (asyncio StreamReader below them), DataEventDispatcher delivers each notification once to every listener, '
+             'temp files append, @close_stream_on_error transparent; the response record block = the temp file = concatenation of response_data events; '
+             'end_request/end_response calling write_record once each is not under contract (bounded stand-ins c05_reader / c07_cdx exercise it)',
+        not_decided=['"exactly one request and one response record per exchange" end to end (recorder callbacks wiring): bounded only'],
+    ),
+    'C08': dict(
+        modules=['httpstream'], level='proof', bounded=['c08_segment.py'],
+        claim='Against RFC 7230 section 3.3.3 as quoted by the property: is_no_body <=> 1xx/204/304/HEAD; read strategy chunked <=> the final transfer coding is '
+              'chunked (case-insensitive), else length <=> Content-Length present, else close; the length reader delivers exactly the first N consumed bytes, '
+              'closes the connection on surplus; every reader raises NetworkError ONLY when the peer closed or the transport failed (ghost eof/failed flags of the '
+              'connection: a well-formed response is never an error for any segmentation) and never returns normally on a truncated chunk terminator / trailer; '
+              'chunk sizes are hexadecimal, fragments sum to the announced size; header block capped at 32 KiB; should_close per HTTP version; every body piece is '
+              'fed once, in order, to the decoder with one flush at the end. Three genuine defects were found by these obligations and repaired (fix: commits).',
+        note='assumed: Connection.read returns b"" exactly at end of stream and at most `amount` bytes; readline returns a line without LF only at end of stream; '
+             'Response.parse / NameValueRecord.parse are assumed here; the decoders are C19',
+        not_decided=['body == dec(payload) as one end-to-end equation (needs zlib semantics: C19 / bounded stand-in)'],
+    ),
 }
